@@ -3,20 +3,20 @@
    x < 2^23 after the first PRBS step, 1 + 1001*n needs n > 9*10^15 to wrap,
    which would take that many loop iterations of Encode first); Go's / and %
    truncate toward zero (Z.quot, Z.rem); run-time panics are values:
-   integer divide by zero, makeslice with a negative length, index out of
+   integer divide by zero, makeslice with a negative or unallocatable length, index out of
    range.  The retry loop of matrixLine runs on fuel.  No proofs in this file. *)
 From Coq Require Import List NArith ZArith Bool.
 From LW Require Import Base.Outcome Base.Bytes.
 Import ListNotations.
 Open Scope Z_scope.
 
-(* encode.go:47-51 *)
+(* encode.go:51-55 *)
 Definition prbs23 (x : Z) : Z :=
   let b0 := Z.land x 1 in
   let b1 := Z.quot (Z.land x 32) 32 in
   Z.quot x 2 + (Z.lxor b0 b1) * 2 ^ 22.
 
-(* encode.go:53-55 *)
+(* encode.go:57-59 *)
 Definition is_power2 (num : Z) : bool :=
   negb (num =? 0) && (Z.land num (num - 1) =? 0).
 
@@ -54,7 +54,7 @@ Fixpoint coeffs (k : nat) (fuel : nat) (x m mm : Z) (line : list bool) : outcome
     end
   end.
 
-(* encode.go:57-77; m = len(dataRows) >= 0 *)
+(* encode.go:61-81; m = len(dataRows) >= 0 *)
 Definition matrix_line (fuel : nat) (n m : Z) : outcome (list bool) :=
   if m <? 0 then Panic else
   let mm := if is_power2 m then 1 else 0 in
@@ -77,12 +77,16 @@ Fixpoint xor_selected (a : list bool) (rows : list (list N)) (s : list N) : list
   | _, _ => s
   end.
 
+Definition MAXALLOC : Z := 2 ^ 48.
+
 Fixpoint parity_rows (fuel : nat) (cnt : nat) (y : Z) (rows : list (list N)) (size : Z)
   : outcome (list (list N)) :=
   match cnt with
   | O => Ok []
   | S cnt' =>
-    if size <? 0 then Panic else             (* make([]byte, fragmentSize) *)
+    (* make([]byte, fragmentSize): "makeslice: len out of range" for a negative length and for one
+       beyond the runtime's allocation limit (maxAlloc = 2^48 bytes on linux/amd64) *)
+    if (size <? 0) || (MAXALLOC <? size) then Panic else
     do a <- matrix_line fuel (y + 1) (Z.of_nat (length rows));
     let s := xor_selected a rows (repeat 0%N (Z.to_nat size)) in
     do r <- parity_rows fuel cnt' (y + 1) rows size;
@@ -91,11 +95,12 @@ Fixpoint parity_rows (fuel : nat) (cnt : nat) (y : Z) (rows : list (list N)) (si
 
 Definition FUEL : nat := 64.
 
-(* encode.go:10-45; since fix 4f15916 the data rows are copies of data[offset:offset+size] -
+(* encode.go:10-49; since fix 4f15916 the data rows are copies of data[offset:offset+size] -
    invisible at the level of values *)
 Definition encode_with (fuel : nat) (data : list N) (size red : Z) : outcome (list (list N)) :=
   let len := Z.of_nat (length data) in
   if size <=? 0 then Err else                (* guard added by fix 9813ac2 *)
+  if len =? 0 then Err else                  (* empty block refused since fix 10583ce *)
   if size =? 0 then Panic else               (* len(data) % fragmentSize *)
   if negb (Z.rem len size =? 0) then Err else
   do rows <- data_rows (Z.to_nat (Z.quot len size)) data (Z.to_nat size);
